@@ -152,6 +152,11 @@ impl<T: Clone> Stack<T> {
     pub fn verif_snapshot_depth(&self) -> usize {
         self.lengths.len()
     }
+
+    /// Number of popped elements currently retained for outstanding snapshots (verification harness only).
+    pub fn verif_popped_len(&self) -> usize {
+        self.popped.len()
+    }
 }
 
 impl<T: Clone> Index<Range<usize>> for Stack<T> {
